@@ -130,6 +130,11 @@ def coq_eval(name, text, timeout=300):
         os.remove(os.path.join(WORK, "." + name + ".aux"))
     except OSError:
         pass
+    if rc == 0:
+        try:
+            os.remove(path)            # the generated file is kept only when coqc failed on it (for inspection)
+        except OSError:
+            pass
     return rc, out
 
 
